@@ -446,15 +446,17 @@ class ArgumentParser:
 
         # -D and -U are processed in command-line order: -U cancels earlier
         # definitions of a macro, and the last of several definitions wins.
-        defines = {}
+        def macro_name(definition):
+            return definition.split("=", 1)[0].split("(", 1)[0]
+
+        defines = []
         for define in args.defines:
-            if isinstance(define, tuple):
-                defines.pop(define[1], None)
-                continue
-            name = re.split("[=(]", define, maxsplit=1)[0]
-            defines.pop(name, None)
-            defines[name] = define
-        args.defines = list(defines.values())
+            undefine = isinstance(define, tuple)
+            name = define[1] if undefine else macro_name(define)
+            defines = [d for d in defines if macro_name(d) != name]
+            if not undefine:
+                defines.append(define)
+        args.defines = defines
 
         # Directories given with -isystem are searched after all directories
         # given with -I, whatever their order on the command line.
